@@ -236,3 +236,62 @@ WRAPS = [("", ""), ("Av(", ")"), ("{", "}"), ("[", "]"), ("  ", "\n")]
 def strided(n, stride):
     """Every stride-th permutation of length n in lexicographic order (a stated, fixed family)."""
     return [p for i, p in enumerate(itertools.permutations(range(n))) if i % stride == 0]
+
+
+# --------------------------------------------------------------------------------------------
+# large regions: point-free rectangles of boxes, shaded fully or with a hole / a missing line
+# (same family as mc/checks/c06.py `holes`; regions of 3 x 3 boxes need length >= 5)
+# --------------------------------------------------------------------------------------------
+
+def pointfree_rects(patt, minside):
+    """Every rectangle of boxes [a..b] x [c..d] of the grid of patt with both sides >= minside
+    that has no point of patt strictly inside."""
+    k = len(patt)
+    for a in range(k + 1):
+        for b in range(a + minside - 1, k + 1):
+            for c in range(k + 1):
+                for d in range(c + minside - 1, k + 1):
+                    if not any(a <= i < b and c <= patt[i] < d for i in range(k)):
+                        yield a, b, c, d
+
+
+def rect_shadings(rect):
+    """The rectangle itself, minus one box (every box in turn: corner, border, interior), minus
+    one column, minus one row."""
+    a, b, c, d = rect
+    full = frozenset((x, y) for x in range(a, b + 1) for y in range(c, d + 1))
+    out = {full}
+    for box in full:
+        out.add(full - {box})
+    for x in range(a, b + 1):
+        out.add(frozenset(z for z in full if z[0] != x))
+    for y in range(c, d + 1):
+        out.add(frozenset(z for z in full if z[1] != y))
+    return out
+
+
+def holes_of(patt, minside):
+    out = set()
+    for rect in pointfree_rects(patt, minside):
+        out |= rect_shadings(rect)
+    return sorted(out, key=lambda sh: (len(sh), sorted(sh)))
+
+
+def symmetry_representatives(n):
+    """The permutations of length n that are the lexicographically least member of their orbit
+    under the eight symmetries."""
+    return [p for p in R.perms(n) if p == min(R.orbit(p))]
+
+
+def holes_small_patterns(thorough):
+    """The small partner p: every shading of the one-point pattern with >= 1 cell (15) and the
+    shaded pattern over the empty permutation; thorough: also the one-cell shadings of length 2."""
+    out = [["mesh", [], [[0, 0]]]]
+    for sh in R.all_shadings(1):
+        if sh:
+            out.append(["mesh", [0], cells_list(sh)])
+    if thorough:
+        for p in R.perms(2):
+            for c in R.all_cells(2):
+                out.append(["mesh", list(p), [list(c)]])
+    return out
